@@ -18,7 +18,7 @@ func init() {
 			"the content is written, synced and closed and the mode set, each with its error checked, before the rename; the temporary file lives in the destination's directory; " +
 			"no other filesystem mutator touches the final name; a deferred cleanup registered directly after the successful CreateTemp removes the temp file on every failing exit; " +
 			"every failing step returns a non-nil error which the walk callback, Install and the kong Run method pass on. Exhaustive over the CFG of the installer (all blocks, all returns).",
-		notDecided: "kernel/filesystem semantics (rename(2) atomic replace, effects of earlier syscalls survive a crash), short writes inside (*os.File).Write, durability of the directory entry (documented as not guaranteed).",
+		notDecided:  "kernel/filesystem semantics (rename(2) atomic replace, effects of earlier syscalls survive a crash), short writes inside (*os.File).Write, durability of the directory entry (documented as not guaranteed).",
 		assumptions: []string{"rename(2) within one directory atomically replaces the destination", "a process death between two syscalls leaves the effects of the earlier ones", "os package wrappers map 1:1 to syscalls", "go/ssa dominator tree and referrer lists are correct"},
 	})
 }
